@@ -152,6 +152,14 @@ theorem eF_typed (σ : Store) : TypedIn c4L σ eF :=
   typedIn_op (okTerm_of_okTermN (k := 0) (Nat.zero_le _) _ (by decide))
 theorem eS_typed : TypedIn c4L s2.store eS := typedIn_src (by decide)
 
+theorem eGFS_typed : TypedIn c4L s4.store eGFS :=
+  (parse_nodes (P := c4P) c4L_wf c4P_aliases c4ops_ok (empty_good _) (fun _ h => by cases h) ex_parse).2.2
+
+/-- the argument `f -` of `g(f -)` is typed in the final store -/
+theorem eFS_typed : TypedIn c4L s4.store eFS :=
+  ⟨by have := eGFS_typed.ok; unfold eGFS okExpr at this; simp only [Bool.and_eq_true] at this; exact this.1.2,
+   fun ρ hρ => by have := eGFS_typed.wt ρ hρ; unfold eGFS WellTyped at this; exact this.2.1⟩
+
 /-! ## `f(1 : B)` with one input -/
 
 /-- the state after creating the input -/
